@@ -1,5 +1,5 @@
 CFG = {
-    "modules": ["Parsley.Props.C10", "Parsley.Props.C10Full", "Parsley.Props.C10Rules", "Parsley.Props.C10Machine"],
+    "modules": ["Parsley.Props.C10", "Parsley.Props.C10Keys", "Parsley.Props.C10Full", "Parsley.Props.C10Rules", "Parsley.Props.C10Machine"],
     "theorems": [
         # structural theorems over the REGENERATED shipped specification (decide +kernel)
         "Parsley.C10.shipped_catalog_keys", "Parsley.C10.shipped_root_keys",
@@ -8,6 +8,11 @@ CFG = {
         "Parsley.C10.shipped_name_choices", "Parsley.C10.shipped_rectangles", "Parsley.C10.shipped_page_scalars",
         "Parsley.C10.shipped_page_labels_reads_nums", "Parsley.C10.shipped_names_dictionary",
         "Parsley.C10.shipped_catalog_scalars", "Parsley.C10.shipped_covers_rule_tables",
+        # sweep follow-up: the EXACT entry table (key, required|optional|forbidden, kind of check) of every dictionary type of the
+        # regenerated specification, and the closed list of all dictionary / stream types that occur in it (Props/C10Keys.lean)
+        "Parsley.C10.shipped_catalog_entries", "Parsley.C10.shipped_root_entries", "Parsley.C10.shipped_node_entries",
+        "Parsley.C10.shipped_page_entries", "Parsley.C10.shipped_template_entries", "Parsley.C10.shipped_resources_entries",
+        "Parsley.C10.shipped_name_dictionary_entries", "Parsley.C10.shipped_dict_types", "Parsley.C10.rules_tables_complete",
         # rules = model of the shipped predicates, all objects
         "Parsley.C10.tree_rule_eq_model", "Parsley.C10.number_tree_rule_eq_shipped", "Parsley.C10.name_tree_rule_eq_shipped",
         # all documents
@@ -34,9 +39,11 @@ CFG = {
     "partial": {
         "Parsley.C10.rendered_conforms_partial":
             "SUPERSEDED by the full theorems of the C10b follow-up (kept as a lemma): `rendered_conforms` (Props/C10Full.lean) proves "
-            "conformance for EVERY well-formed document WITH arbitrary optional entries of the menu (rectangles, dates, page-mode/"
-            "layout/tab names, name and number trees of every shape, name dictionary, indirect dictionary/stream, strings, booleans, "
-            "numbers) on catalog, pages and templates; `mutated_rejected` (Props/C10Rules.lean) proves `not Conforms (mutate m d)` for "
+            "conformance for EVERY well-formed document WITH arbitrary optional entries of the menu -- since the sweep follow-up EVERY "
+            "entry the shipped catalog, page and template types declare (rules_tables_complete: the rules' tables = the shipped entry "
+            "tables), the ten name trees and the eight /Resources entries: rectangles, dates, page-mode/layout/tab names, name and "
+            "number trees of every shape, indirect dictionary/stream, strings, names, booleans, numbers, arbitrary arrays / "
+            "dictionaries / direct streams, arrays of dictionaries, /Contents, /Resources -- on catalog, pages and templates; `mutated_rejected` (Props/C10Rules.lean) proves `not Conforms (mutate m d)` for "
             "EVERY well-formed d and EVERY valid single-rule mutation m of all six classes at every position and depth (no spec-gap "
             "class exists: the judge's `spec-gap-*` verdicts are provably unreachable for valid mutations); "
             "`date_recogniser_eq_regex_shape` proves the rules' date recogniser = the model of DateStringPredicate for every byte "
@@ -54,17 +61,25 @@ CFG = {
     "n": {"quick": 400, "thorough": 6000},
     "exhaustive": {"quick": True, "thorough": True},
     "shrink": False,
-    "rule": "corpus (23 hand-built catalogs: every DESIGN section-4 input #21-#24, the crate's own test shapes, dates with Unicode "
+    "rule": "corpus (101 hand-built catalogs: every DESIGN section-4 input #21-#24, the crate's own test shapes, dates with Unicode "
             "digits / invalid UTF-8 / trailing apostrophe, reference chains, a self reference, a cyclic page tree, a directly given "
-            "root); EXHAUSTIVE both tiers: 5 fixed documents (empty tree, one page, all optional entries of the menu on catalog/page/"
-            "template, a 3-level tree, empty inner nodes) x EVERY valid single-rule mutation at EVERY position (drop each required key; "
-            "add the forbidden /Parent with 4 values; each name-valued key x 11 other names; each non-structural key x 75 replacement "
-            "values of the wrong type incl. every ill-formed name/number-tree node; every kid embedded directly; /Parent as 6 direct "
-            "objects), ~12000 cases; random: n conforming documents (depth <= 2 quick / 3 thorough, fan-out <= 3 / 4, random optional "
-            "entries: rectangles, dates of every length, tab/page-mode/page-layout names, number and name trees of all four shapes, "
-            "name dictionary, indirect dictionary/stream, strings, booleans) + 2n documents with one random valid mutation at a random "
-            "position; every case is re-derived from (seed, stream, index) by the judge and must equal its rendering; non-trivial = "
-            "mutated, or conforming with a kid and at least one optional entry",
+            "root; entry_tables.case: 77 one-page / one-template documents with one entry of the page, template, resources, "
+            "name-dictionary or catalog type well- or ill-typed, expectation written by hand from the Rust constructors); "
+            "EXHAUSTIVE both tiers: 5 fixed documents (empty tree, one page, EVERY entry of the shipped catalog / page / template "
+            "types incl. the ten name trees and the eight /Resources entries on catalog, page and template, a 3-level tree, empty "
+            "inner nodes) x EVERY valid single-rule mutation at EVERY position (drop each required key; add the forbidden /Parent "
+            "with 4 values; each name-valued key x 11 other names; EACH key of EACH dictionary type (catalog 32, page 33, template "
+            "32, node, root: the rules' tables are proved to be exactly the shipped entry tables, rules_tables_complete) x one "
+            "replacement value of every other object type (12 basic values) + the near misses of the key's kind: rectangles of "
+            "3/5 elements or a non-number, 12 ill-formed dates, 21 number-tree nodes, 17 node shapes below each of the 10 name "
+            "trees, 34 /Resources dictionaries with one ill-typed sub-entry, /Contents and /AF arrays with one element of the "
+            "wrong type; every kid embedded directly; /Parent as 6 direct objects), ~7300 cases; random: n conforming documents "
+            "(depth <= 2 quick / 3 thorough, fan-out <= 3 / 4, each optional entry of every type present at random: rectangles, "
+            "dates of every length, names, numbers, number and name trees of all four shapes, arbitrary arrays, dictionaries and "
+            "direct streams, arrays of dictionaries, /Contents as a stream or an array of streams, /Resources, indirect "
+            "dictionary/stream targets) + 2n documents with one random valid mutation at a random position; every case is "
+            "re-derived from (seed, stream, index) by the judge and must equal its rendering; non-trivial = mutated, or "
+            "conforming with a kid and at least one optional entry",
     "trusted_base": COMMON_TB + [
         "extraction harness/src/bin/c10.rs: serialisation of the real check graph (type constructors, entries, sizes, alternatives, "
         "indirect flags, ChoicePred values, predicate objects numbered by address) into Gen/CatalogSpec.lean; the predicate's Rust "
@@ -78,7 +93,8 @@ CFG = {
     ],
     "assumptions": [
         "single-rule mutations insert DIRECT values (the replacement value is not a reference, and -- `refEntry` in Mutation.valid -- "
-        "a replacement name dictionary does not give /Dests or /EmbeddedFiles by reference; references inside tree nodes are what the "
+        "a replacement name dictionary does not give one of its name trees by reference, a replacement /Resources none of its "
+        "sub-entries, a replacement /AF or /Contents array none of its elements; references inside tree nodes are what the "
         "rules ask for); giving the /Type of a kid the name of another kid type is a change of kind, not a violation",
         "documents carry pairwise distinct object numbers (Doc.ok)"],
 }
@@ -87,7 +103,12 @@ LEVEL = {
     "technique": "Lean 4 theorems over the REGENERATED shipped specification (data translated from the real catalog_type on every run) "
                  "+ the C08 machine model on that term + rule-based oracle (documents, render, single-rule mutations) + differential "
                  "correspondence with the real check_type(catalog_type)",
-    "text": "Machine-checked on every run against the specification the code builds NOW: 13 structural theorems (required/forbidden keys "
+    "text": "Machine-checked on every run against the specification the code builds NOW: the EXACT entry table (key, required | "
+            "optional | forbidden, kind of check) of every dictionary type of the regenerated specification -- catalog (32 entries), "
+            "root, inner node, page (33), template (32), resources (8), name dictionary (10) -- with the closed list of all dictionary "
+            "types that occur in it (shipped_*_entries, shipped_dict_types: a removed, added, retyped or re-flagged entry breaks a "
+            "proof obligation) and rules_tables_complete (the rules' tables, from which documents and mutations are generated, have "
+            "exactly the shipped keys); 13 structural theorems (required/forbidden keys "
             "of catalog, root, node, page, template; kids = indirect-required disjunction node|page|template; /Parent any+indirect; the "
             "listed page-mode/layout/tab names; rectangles = 4 numbers; date, number-tree (reads /Nums) and name-tree predicates; every "
             "key of the rules' tables has the expected entry), equality of the rules' tree recogniser with the model of the two tree "
@@ -99,8 +120,9 @@ LEVEL = {
             "machine_accepts_rendered (the model of the real check_type accepts every rendered well-formed document with arbitrary "
             "optional entries; from rendered_conforms and C08 machine_complete). Partial only in that REJECTION by the MACHINE of mutated "
             "documents is not a theorem (the machine differs from the declarative reading exactly on the recorded engine findings, all "
-            "false accepts) and is decided by the run. The run replays every valid single-rule mutation at every position of 5 documents plus "
-            "random trees through the real checker, the model and the rule oracle. Found and fixed: NumberTreePredicate read /Names "
+            "false accepts) and is decided by the run. The run replays every valid single-rule mutation (each key of each type x one value of "
+            "every other object type and the near misses of its kind) at every position of 5 documents plus random trees with every "
+            "entry of every type through the real checker, the model and the rule oracle. Found and fixed: NumberTreePredicate read /Names "
             "(C10-01), years in non-ASCII digits accepted (C10-02). Remaining engine findings surface as accepted violations "
             "(/Parent given directly; a violation >= 2 levels deep next to an equal sibling): classified known, with witnesses.",
 }
